@@ -39,6 +39,7 @@ def gen_config(rng, tier, dims=(1, 2, 2, 2, 3, 3, 4), max_steps=None, box_kinds=
     }
     cfg["recalc"] = rng.choice([None, None, None, 1, 3, 10])   # recalculate_frequently with this many refinements per restart
     # how the caller hands over the domain: float arrays (default), lists / tuples, python ints or integer arrays on whole-number boxes
+    cfg["errscale"] = rng.choice([1.0, 1.0, 1.0, 1.0, 1.0, 1e-9, 1e-12, 1e9])     # magnitude of the error / benefit values
     cfg["input_mode"] = rng.choice(hooks.INPUT_MODES) if (kind == "integer" or rng.random() < 0.1) else "float_array"
     if cfg["profile"] in ("equal", "zeros") and d >= 3:
         cfg["steps"] = min(cfg["steps"], 3)
